@@ -60,6 +60,10 @@ inductive Expr where
   | boolc (b : Bool)                          -- `True` / `False`
   | slice2 (e a b : Expr)                     -- `e[a:b]` with computed non-negative bounds
   | beU32 (e : Expr)                          -- `numpy.frombuffer(e, dtype=">u4")[0]` of exactly four bytes
+  -- third round (text methods)
+  | replace (e pat rep : Expr)                -- `e.replace(pat, rep)` (non-empty pattern)
+  | concat (a b : Expr)                       -- `a + b` where one side is known to be text
+  | findFrom (e pat : Expr) (start : Nat)     -- `e.find(pat, start)` (non-empty pattern)
 deriving Repr, Inhabited
 
 inductive Stmt where
@@ -170,6 +174,30 @@ def beU32 : List Int → Except Err Int
       .ok (((b0 * 256 + b1) * 256 + b2) * 256 + b3)
     else .error .unsupported
   | _ => .error .unsupported
+
+/-- `s.replace(pat, rep)` for a non-empty `pat`: leftmost, non-overlapping occurrences.  `skip` counts the
+    characters of a matched occurrence that are still to be passed over. -/
+def replaceGo (pat rep : List Nat) : Nat → List Nat → List Nat
+  | _, [] => []
+  | skip + 1, _ :: t => replaceGo pat rep skip t
+  | 0, x :: t =>
+    if pat.isPrefixOf (x :: t) then rep ++ replaceGo pat rep (pat.length - 1) t else x :: replaceGo pat rep 0 t
+
+/-- `str.replace`; the empty pattern (Python inserts `rep` between all characters) is not covered -/
+def strReplace (s pat rep : List Nat) : Except Err (List Nat) :=
+  if pat.isEmpty then .error .unsupported else .ok (replaceGo pat rep 0 s)
+
+/-- index of the first occurrence of the non-empty `pat` in `s` at or after position `i` (counted from `i`), else `none` -/
+def findGo (pat : List Nat) : Nat → List Nat → Option Nat
+  | _, [] => none
+  | i, x :: t => if pat.isPrefixOf (x :: t) then some i else findGo pat (i + 1) t
+
+/-- `s.find(pat, start)` with a literal `start ≥ 0`: the index of the first occurrence at or after `start`, else -1 -/
+def strFind (s pat : List Nat) (start : Nat) : Except Err Int :=
+  if pat.isEmpty then .error .unsupported else
+    match findGo pat start (s.drop start) with
+    | some i => .ok (i : Int)
+    | none => .ok (-1)
 
 def prodInts : List Int → Int
   | [] => 1
@@ -309,6 +337,18 @@ def eval (env : Env) : Expr → Except Err Val
       match (← eval env e) with
       | .ilist l => .ok (.int (← beU32 l))
       | _ => .error .typeError
+  | .replace e pat rep => do
+      match (← eval env e), (← eval env pat), (← eval env rep) with
+      | .str s, .str p, .str r => .ok (.str (← strReplace s p r))
+      | _, _, _ => .error .unsupported
+  | .concat a b => do
+      match (← eval env a), (← eval env b) with
+      | .str x, .str y => .ok (.str (x ++ y))
+      | _, _ => .error .unsupported
+  | .findFrom e pat start => do
+      match (← eval env e), (← eval env pat) with
+      | .str s, .str p => .ok (.int (← strFind s p start))
+      | _, _ => .error .unsupported
 
 def exec (env : Env) : Stmt → Except Err Env
   | .skip => .ok env
